@@ -37,6 +37,8 @@ def configs(tier):
         add("ddr3x4-1p-K3-refresh-W8", refresh=True, K=3, window=8, **DDR3)
         add("ddr3x4-rd2wr3-1p-K3-refresh-W8", refresh=True, K=3, window=8, rdphase=2, wrphase=3, **DDR3)       # other PHY read/write phase choices
         add("ddr2x2-rd1wr0-1p-K3-norefresh", refresh=False, K=3, rdphase=1, wrphase=0, **DDR2)
+        add("ddr3x4-sigphases-rd2wr1-1p-K3-norefresh", refresh=False, K=3, rdphase=2, wrphase=1, phase_signals=True, **DDR3)
+        add("ddr2x2-sigphases-rd0wr1-1p-K3-norefresh", refresh=False, K=3, rdphase=0, wrphase=1, phase_signals=True, **DDR2)
         add("sdr-1p-K5-reads-norefresh", refresh=False, K=5, rd_only=True, **SDR)
         add("sdr-1p-K3-buffered-d4-norefresh", refresh=False, K=3, buffered=True, depth=4, **SDR)
         add("sdr-1p-K3-depth1-refresh-W10", refresh=True, K=3, window=10, depth=1, **SDR)        # command buffers of depth 1 / 0 are other LiteX primitives
